@@ -190,7 +190,25 @@ pub fn variant_name(v: &VariantSpec, enum_ra: Option<RenameAll>) -> String {
 
 // ---------- defaults and the function library's semantics ----------
 
+/// `Default::default()` of a deserialized type, as dumped.
+fn trait_default_of(t: &Ty) -> Doc {
+    match t {
+        Ty::P(t) | Ty::Bx(t) => trait_default_of(t),
+        Ty::Opt(_) => Doc::Null,
+        Ty::Vec(_) | Ty::HSet(_) | Ty::BSet(_) => Doc::Seq(vec![]),
+        Ty::Map { .. } => Doc::Obj(vec![]),
+        Ty::Sc(Scalar::Bool) => Doc::Bool(false),
+        Ty::Sc(Scalar::Str) => Doc::Str(String::new()),
+        Ty::Sc(Scalar::Unit) => Doc::Null,
+        Ty::Sc(s) if s.int_shape().map(|(_, _, nz)| !nz).unwrap_or(false) => Doc::Int(0),
+        other => panic!("no trait default known for {other:?}"),
+    }
+}
+
 pub fn default_doc(f: &FieldSpec) -> Doc {
+    if decl_class(f) == DeclClass::Other && f.default != DefaultSpec::Expr {
+        return trait_default_of(&f.ty);
+    }
     let expr = f.default == DefaultSpec::Expr;
     match decl_class(f) {
         DeclClass::PU8 | DeclClass::Cv => Doc::Int(if expr { 7 } else { 0 }),
